@@ -2,7 +2,7 @@
 //
 // (a) ACCESSORS. /verif/spec_tables/state_accessors.txt is data: method -> spec field path -> kind,
 // for every fork's *BeaconStateView (phase0 … electra) and every typed sub-view reachable from it.
-// A random state (refssz.Random, presets "tiny" and "minimal") is serialised by refssz and loaded
+// A random state (refssz.Random, presets "tiny", "odd" (non-power-of-two vector lengths) and "minimal") is serialised by refssz and loaded
 // into the library from bytes; the named method chain is invoked by reflection. Oracle: a getter's
 // result equals the value at that path of the refssz-decoded state; after a writer the library
 // state, re-serialised, equals byte for byte the model state in which ONLY the named
@@ -795,7 +795,7 @@ func TestCheck(t *testing.T) {
 	}
 	// presets in the outer loop and a rotation per preset, so that every shard gets the same mix of
 	// cheap (tiny) and expensive (minimal) rows
-	for pi, p := range []string{"tiny", "minimal"} {
+	for pi, p := range []string{"tiny", "minimal", "odd"} {
 		k := 0
 		for fork := 0; fork <= zb.Electra; fork++ {
 			for _, ch := range tab.Chains(fork) {
@@ -810,11 +810,11 @@ func TestCheck(t *testing.T) {
 	r.S.Extra["table_rows_total"] = rows
 
 	failures := 0
-	nTiny, nMin := 30, 10
+	nTiny, nMin := 22, 10
 	if r.Thorough() {
 		nTiny, nMin = 250, 80
 	}
-	r.S.Extra["accessor_cases_per_row_and_preset"] = map[string]int{"tiny": nTiny, "minimal": nMin}
+	r.S.Extra["accessor_cases_per_row_and_preset"] = map[string]int{"tiny": nTiny, "odd": nTiny, "minimal": nMin}
 	r.S.Extra["views_not_reachable_from_a_state_accessor"] = "HistoricalBatchView, WithdrawalView, BLSToExecutionChangeView, SignedBLSToExecutionChangeView, SyncAggregateView and the block/operation views are not sub-views of a state and are outside this table (their encodings are C04/C05's subject)"
 	for i, tr := range tour {
 		if tr.slot%r.S.NShards != r.S.Shard {
@@ -845,9 +845,9 @@ func TestCheck(t *testing.T) {
 	}
 	if failures == 0 {
 		for fork := 0; fork <= zb.Electra; fork++ {
-			for pi, p := range []string{"tiny", "minimal"} {
+			for pi, p := range []string{"tiny", "minimal", "odd"} {
 				e, _ := getEnv(p, fork)
-				n := r.N(240, 2000)
+				n := r.N(176, 2000)
 				if p == "minimal" {
 					n = r.N(64, 500)
 				}
